@@ -343,9 +343,16 @@ class Engine:
     def _val(self, sc, out):
         from auditok.util import AudioEnergyValidator
         sw, ch, sr, bsz = sc["fmt"]
-        wins = [C.make_window(i, p, bsz, sw, ch)
-                for i, p in enumerate(sc["pattern"])]
-        wins += [b"\x00" * (bsz * sw * ch)]
+        # windows of different lengths: full windows and shorter (partial
+        # last window of a stream) ones, loud and quiet
+        wins = []
+        for i, p in enumerate(sc["pattern"]):
+            ln = bsz if (i + sc["nwin2"]) % 3 else 1 + (i % bsz)
+            wins.append(C.make_window(i, p, ln, sw, ch))
+        wins += [b"\x00" * (bsz * sw * ch), b"\x00" * (sw * ch),
+                 C.make_window(1, 1, 2 * bsz + 1, sw, ch)]
+        if any(len(w_) != len(wins[0]) for w_ in wins):
+            out["probes"]["validator_window_lengths_vary"] = 1
         uc = [None, "mix", 0, -1][sc["history"][0][1] % 4]
         v = AudioEnergyValidator(C.ETH, sw, ch, use_channel=uc)
         fresh = [AudioEnergyValidator(C.ETH, sw, ch, use_channel=uc)
